@@ -21,7 +21,7 @@ EXTENDS Integers, Sequences, FiniteSets, TLC, Json
 CONSTANTS Values,    \* set of [k, s, tnt, nul, def]  (k: "text"|"num"|"none"|"elist"|"obj")
           ModSets,   \* set of subsets of Modifiers
           Fmts,      \* subset of FmtNames \cup {""}
-          CFmts,     \* subset of {"s", "6s"}     (C-style format of the EPFS syntax)
+          CFmts,     \* subset of {"s", "6s", "X", "x", "08X", "05d"}     (C-style format of the EPFS syntax)
           Sizes,     \* subset of Int; -1 = no size attribute
           Etcs,      \* subset of {"default", "none", "tilde"}  (etc attribute: absent, "", "~~")
           Nulls,     \* subset of BOOLEAN: null="NUL" given?
@@ -170,6 +170,19 @@ TaintAfter(m, r) ==
                  "thousands_commas"} -> TRUE
       [] OTHER -> FALSE
 
+\* integer conversions of the C-style format, for values that are non-negative integers: %X / %x (hexadecimal, the case of
+\* the letter is the case of the digits), %08X (zero-padded to eight columns), %05d
+IntCFmts == {"X", "x", "08X", "05d"}
+RECURSIVE NumOf(_, _)
+NumOf(t, acc) == IF t = <<>> THEN acc ELSE NumOf(Tail(t), 10 * acc + (Base(Head(t)) - 48))
+HexDigit(d, up) == IF d < 10 THEN 48 + d ELSE (IF up THEN 55 ELSE 87) + d
+RECURSIVE HexText(_, _)
+HexText(n, up) == IF n < 16 THEN <<HexDigit(n, up)>> ELSE HexText(n \div 16, up) \o <<HexDigit(n % 16, up)>>
+ZeroPad(t, w) == IF Len(t) >= w THEN t ELSE [i \in 1..w - Len(t) |-> 48] \o t
+IntConv(cf, t) == LET n == NumOf(t, 0) IN
+                  CASE cf = "X" -> HexText(n, TRUE) [] cf = "x" -> HexText(n, FALSE)
+                    [] cf = "08X" -> ZeroPad(HexText(n, TRUE), 8) [] cf = "05d" -> ZeroPad(Digits(n), 5)
+
 FmtNames == {"html-quote", "url-quote", "url-quote-plus", "url-unquote", "url-unquote-plus",
              "sql-quote", "multi-line", "comma-numeric", "collection-length",
              "upper", "lower", "capitalize", "strip", "pct",
@@ -218,6 +231,8 @@ Expressible(i) ==
     /\ (i.v.k \in {"missing", "kerr"} => i.form = "name")
     /\ (i.v.tnt => \E j \in 1..Len(i.v.s) : Base(i.v.s[j]) = 60)   \* tainted = untrusted data containing '<' 
     /\ (i.etc # "default" => i.size # -1)
+    /\ (i.cf \in IntCFmts => i.v.k = "num" /\ i.fmt = "" /\ i.form = "name" /\ ~i.null
+                             /\ \A j \in 1..Len(i.v.s) : IsDigit(Base(i.v.s[j])))
 
 Init == /\ inp \in {i \in Inputs : Expressible(i)}
         /\ stage = "lookup" /\ mi = 1 /\ val = <<>> /\ tnt = FALSE /\ ret = FALSE
@@ -277,6 +292,7 @@ Pad(s, n) == IF Len(s) >= n THEN s ELSE [i \in 1..n - Len(s) |-> 32] \o s
 CFmt ==
     /\ stage = "cfmt"
     /\ IF inp.cf = "s" THEN UNCHANGED <<val, tnt>>
+       ELSE IF inp.cf \in IntCFmts THEN val' = IntConv(inp.cf, val) /\ UNCHANGED tnt
        ELSE /\ val' = Pad(val, 6) /\ UNCHANGED tnt        \* formatted untrusted text stays untrusted
     /\ stage' = "mods" /\ mi' = 1
     /\ UNCHANGED <<inp, ret>>
